@@ -75,6 +75,15 @@ class Main(S.DispatchStream):
                 c = GN.base_case(rng.choice([1.0, 2.0]), dk)
                 c["body"] = json.dumps([GN.ENTRY_KINDS[rng.choice(kinds[:6])](rng.choice([GN.ABSENT, None, ""]), True) for _ in range(ln)])
                 cases.append(c)
+        # ids that hold a class descriptor somewhere (class translation on): the translated id cannot be echoed, so the
+        # entry has "no usable id" -- answered with id null, never by an exception out of the dispatcher (finding F15)
+        desc = {"__jsonclass__": ["fractions.Fraction", [1, 3]]}
+        for rid in (desc, [desc], {"k": desc}, [1, [desc]], {"a": {"b": [desc]}}):
+            for ver, dk in itertools.product([1.0, 2.0], ["default", "custom-returns", "instance-dispatch-raises"]):
+                for body in (GN.req("ok", [1], rid, ver == 2.0), [GN.req("ok", [1], rid), GN.req("ok", [2], 8)]):
+                    c = GN.base_case(ver, dk, jsonclass=True)
+                    c["body"] = json.dumps(body)
+                    cases.append(c)
         # random longer batches
         for _ in range(300 if tier == "quick" else 6000):
             c = GN.base_case(rng.choice([1.0, 2.0]), rng.choice(dkinds), jsonclass=rng.random() < 0.85)
@@ -118,6 +127,8 @@ class Main(S.DispatchStream):
             if not isinstance(o, dict) or "id" not in o:
                 return ("C03:response-without-id", "response %d: %r" % (pos, o))
             usable = isinstance(e, dict) and "id" in e and e["id"] is not None and e["id"] != ""
+            if usable and case.get("jsonclass", True) and "__jsonclass__" in json.dumps(e["id"]):
+                usable = False       # the class translator turns this id into an object that is no JSON value
             if usable:
                 if not V.same(o["id"], e["id"]):
                     return ("C03:id-not-echoed", "entry %d has id %r, its response carries %r" % (pos, e["id"], o["id"]))
